@@ -39,6 +39,27 @@ func init() {
 	intrinsics["(*math/rand.Rand).Int"] = nonneg(64)
 }
 
+// Health-check probe environment (bfe_balance/backend.checkTCPConnect). No socket exists in the
+// interpreter; the two dial entry points are given the two possible environment behaviours, so that a
+// harness selects the probe outcome through configuration (BackendCheck.CheckTimeout nil / set):
+//   net.Dial         -> the connection is established (an inert *net.TCPConn whose Close is a no-op)
+//   net.DialTimeout  -> the attempt fails with an error
+func init() {
+	intrinsics["net.Dial"] = func(m *Machine, fn *ssa.Function, a []value) value {
+		t := fn.Pkg.Type("TCPConn").Type()
+		cell := new(value)
+		*cell = m.zero(t)
+		m.stats.Assumes["net.Dial stub: connection established (inert conn)"]++
+		return tuple{iface{t: types.NewPointer(t), v: cell}, iface{}}
+	}
+	intrinsics["net.DialTimeout"] = func(m *Machine, fn *ssa.Function, a []value) value {
+		m.stats.Assumes["net.DialTimeout stub: the attempt fails (i/o timeout)"]++
+		return tuple{iface{}, m.mkErr("dial tcp: i/o timeout")}
+	}
+	intrinsics["(*net.TCPConn).Close"] = func(m *Machine, fn *ssa.Function, a []value) value { return iface{} }
+	intrinsics["(*net.conn).Close"] = func(m *Machine, fn *ssa.Function, a []value) value { return iface{} }
+}
+
 type murmurCall struct {
 	arg []*Term
 	res *Term
